@@ -24,6 +24,7 @@ RULE = ('task histories: 0-40 tasks, each ok / failing (Exception or BaseExcepti
         'more than ten seconds made of 3 s tasks; LINE-event yields in deep/task and deep/push; '
         'non-trivial = at least one task failed or was still running when flush started; distinct by canonical history')
 ASSUMPTIONS = ['tasks are shorter than flush\'s own 10 s per-task wait', 'a refused post-close submission may raise any exception type']
+RULE += "; snapshots handed over from the threads of an application's own ThreadPoolExecutor"
 REQUIRE = {'pushes_from_application_pool_threads': 100, 'tasks_tracked': 2000, 'flushes_checked': 300, 'flush_with_running_failure': 80, 'sends_checked': 1500,
            'failed_sends': 100, 'unconvertible': 100, 'post_close_submits': 200, 'yield_points': 2000,
            'submits_during_flush': 30, 'twin_handler_flushes': 40, 'backlog_flushes': 1, 'flushes_over_a_draining_queue': 8, 'tasks_submitting_during_flush': 2,
